@@ -51,6 +51,8 @@ SCALE = 0.5
 
 
 def alphabet(pair):
+    if pair == 'branch5_to_3':      # its atom 1 has three bonds
+        return EVENTS + [['collinear_call', 2]]
     return EVENTS + EXTRA if pair == 'chain4_to_6' else EVENTS
 
 
@@ -335,6 +337,23 @@ class C04(Check):
                             V.append(('call/result-is-not-a-new-object', k))
                     w.results.append(out)
                     w.snapshot[f'result{len(w.results) - 1}'] = out.atoms_positions.copy()
+            elif name == 'collinear_call':
+                # the argument is deformed so that an anchor with three or more bonds is exactly in line with its two
+                # lowest-numbered bonded atoms (its frame then has an arbitrary normal), and mapped; what is mapped
+                # AFTERWARDS is what a fresh map gives
+                if ev[1] not in getattr(w, 'respecied', ()):
+                    nb = {}
+                    for i, j in w._redges:
+                        nb.setdefault(i, []).append(j)
+                        nb.setdefault(j, []).append(i)
+                    hub = min(i for i in nb if len(nb[i]) >= 3)
+                    n1, n2 = sorted(nb[hub])[:2]
+                    a = w.args[ev[1]]
+                    pos = a.atoms_positions
+                    pos[n2] = pos[hub] + 1.5 * (pos[hub] - pos[n1])
+                    a.atoms_positions = pos
+                    w.snapshot[f'arg{ev[1]}'] = a.atoms_positions.copy()
+                    return self.step(w, ['call', ev[1]], ctxinfo)
             elif name == 'degen_arg':
                 # the argument is deformed so that its highest anchor lies 5e-7 nm from ('near': a finite, well defined
                 # frame) or exactly on ('exact': that frame is undefined, the atoms tied to it come out as nan - for a
